@@ -325,6 +325,9 @@ WALKER_EXEMPT = {
                                            "literal cannot occur in one that the checker accepts",
     "scan_stmt:IrStmtKind::For.pattern": "loop patterns bind names; they contain no dict/set literal",
     "scan_stmt_for_param_writes:IrStmtKind::For.pattern": "loop patterns bind names; they cannot write a parameter",
+    "scan_expr_for_param_writes:MatchArm.pattern": "match patterns bind names / compare literals; they cannot write a "
+                                                   "parameter",
+    "scan_expr:MatchArm.pattern": "patterns contain no dict/set literal",
 }
 
 
